@@ -18,14 +18,18 @@ META = {
     "rule": ("case = module-rooted builder program (JSON AST, + optional metadata / order links); distinct by JSON; "
              "non-trivial as for C01"),
     "required": ["monitor:binding-contract", "monitor:shadow-read", "monitor:M-HIER", "monitor:M-PORTS",
-                 "monitor:M-LINK", "monitor:M-SYM", "monitor:M-CONST", "monitor:M-ORDER", "monitor:M-META", "monitor:M-SIG",
+                 "monitor:M-LINK", "monitor:M-SYM", "monitor:M-CONST", "monitor:M-ORDER", "monitor:M-META", "monitor:M-SIG", "monitor:M-FUNC-BODY",
+                 "feature:const-loaded-again", "feature:function-constant",
                  "feature:call", "feature:order-link", "feature:cfg", "feature:conditional", "feature:metadata",
                  "feature:const-loaded", "feature:unused-output", "feature:poly-func"],
     "reach": ["hugr.model.export:ModelExport.export_node", "hugr.model.export:ModelExport.export_region_dfg",
               "hugr.model.export:ModelExport.export_region_cfg", "hugr.model.export:ModelExport.find_func_input",
               "hugr.model.export:ModelExport.link_name"],
     "assumptions": [
-        "the spelling of type / signature terms is not compared with hugr-core's exporter (no native printer here)",
+        "signature / type terms of nodes and regions are compared by arity only (the statement is about ports, links, "
+        "symbols, hints and metadata); the inlined constant IS compared term by term with hugr-core's export_value "
+        "(the `types` argument of core.const.adt, which the reference leaves as a wildcard, is not compared)",
+        "the module root's own metadata is not compared (the reference exporter does not export it either)",
         "order links to Input / Output nodes are exempt from the hint rule, as in the reference",
         "textual / binary model encodings are out of reach (native module absent)",
     ],
@@ -217,8 +221,148 @@ class Shadow:
             self.term(a["signature"], where + ".signature")
 
 
+# ------------------------------------------------------------------------------------ term tables
+# neutral form of model terms and the terms expected for serialized types / values, written from
+# hugr-core/src/export.rs (export_type_enum, export_type_arg, export_sum_variants, export_value)
+ANY = ["any"]
+
+
+def neutral(t):
+    n = type(t).__name__
+    if n == "Apply":
+        return ["A", t.symbol, [neutral(x) for x in t.args]]
+    if n == "List":
+        return ["L", [neutral(x) for x in t.parts]]
+    if n == "Tuple":
+        return ["T", [neutral(x) for x in t.parts]]
+    if n == "Literal":
+        return ["lit", t.value]
+    if n == "Var":
+        return ["V", t.name]
+    if n == "Splice":
+        return ["S", neutral(t.seq)]
+    if n == "Func":
+        return ["F"]
+    return [n]
+
+
+def tterm(j):
+    t = j["t"]
+    if t == "Sum":
+        rows = [[] for _ in range(j["size"])] if j.get("s") == "Unit" else j["rows"]
+        return ["A", "core.adt", [["L", [rowterm(r) for r in rows]]]]
+    if t == "G":
+        return ["A", "core.fn", [rowterm(j["input"]), rowterm(j["output"])]]
+    if t == "Opaque":
+        name = f"{j['extension']}.{j['id']}" if j["extension"] else j["id"]
+        return ["A", name, [aterm(a) for a in j["args"]]]
+    if t == "V":
+        return ["V", str(j["i"])]
+    if t == "R":
+        return ["S", ["V", str(j["i"])]]
+    if t == "I":
+        return ["A", "prelude.usize", []]
+    if t == "Q":
+        return ["A", "prelude.qubit", []]
+    if t == "Alias":
+        return ["A", j["name"], []]
+    raise AssertionError(j)
+
+
+def rowterm(row):
+    return ["L", [tterm(x) for x in row]]
+
+
+def aterm(a):
+    k = a["tya"]
+    if k == "Type":
+        return tterm(a["ty"])
+    if k == "BoundedNat":
+        return ["lit", a["n"]]
+    if k == "String":
+        return ["lit", a["arg"]]
+    if k in ("Sequence", "List", "Tuple"):
+        return ["L", [aterm(x) for x in a["elems"]]]
+    if k == "Extensions":
+        return ["A", "compat.ext_set", []]
+    if k == "Variable":
+        return ["V", str(a["idx"])]
+    raise AssertionError(a)
+
+
+def vterm(v):
+    from vf.oracles import wire
+
+    k = v["v"]
+    if k == "Extension":
+        c, pay = v["value"]["c"], v["value"]["v"]
+        if c == "ConstInt":
+            return ["A", "arithmetic.int.const", [["lit", pay["log_width"]], ["lit", pay["value"]]]]
+        if c == "ConstF64":
+            return ["A", "arithmetic.float.const_f64", [["lit", pay["value"]]]]
+        if c == "ArrayValue":
+            return ["A", "collections.array.const", [["lit", len(pay["values"])], tterm(pay["typ"]),
+                                                     ["L", [vterm(x) for x in pay["values"]]]]]
+        return ["A", "compat.const_json", [tterm(v["typ"]), ["json", {"c": c, "v": pay}]]]
+    if k == "Function":
+        return ["F"]
+    tag, rows, vs = wire.as_sum(v)
+    return ["A", "core.const.adt", [["L", [["L", [tterm_c(t) for t in row]] for row in rows]], ANY, ["lit", tag],
+                                    ["T", [vterm(x) for x in vs]]]]
+
+
+def tterm_c(t):
+    # as_sum reports field types of Tuple values in canonical form (possibly already canonical dicts)
+    return tterm(t)
+
+
+def term_matches(exp, got):
+    """got (neutral form of the exported term) agrees with exp; ANY matches anything, ["json", x] matches a
+    string literal holding that JSON value, float literals compare by value and sign"""
+    if exp == ANY:
+        return True
+    if exp and exp[0] == "json":
+        if got[0] != "lit" or not isinstance(got[1], str):
+            return False
+        try:
+            return json.loads(got[1]) == json.loads(json.dumps(exp[1]))
+        except ValueError:
+            return False
+    if exp[0] != got[0] or len(exp) != len(got):
+        return False
+    if exp[0] == "lit":
+        return type(exp[1]) is type(got[1]) and json.dumps(exp[1]) == json.dumps(got[1])
+    for a, b in zip(exp[1:], got[1:]):
+        if isinstance(a, list) and a and isinstance(a[0], list) or (isinstance(a, list) and not a):
+            if not isinstance(b, list) or len(a) != len(b) or not all(term_matches(x, y) for x, y in zip(a, b)):
+                return False
+        elif isinstance(a, list):
+            if not isinstance(b, list) or not term_matches(a, b):
+                return False
+        elif a != b:
+            return False
+    return True
+
+
+def function_values(v, t, out):
+    """pairs (serialized body, exported Func term) of the function values at matching positions"""
+    n = type(t).__name__
+    if v["v"] == "Function":
+        if n == "Func":
+            out.append((v["hugr"], t))
+        return
+    if v["v"] == "Extension":
+        if v["value"]["c"] == "ArrayValue" and n == "Apply" and len(t.args) == 3 and hasattr(t.args[2], "parts"):
+            for x, y in zip(v["value"]["v"]["values"], t.args[2].parts):
+                function_values(x, y, out)
+        return
+    if n == "Apply" and len(t.args) == 4 and hasattr(t.args[3], "parts"):
+        for x, y in zip(v["vs"], t.args[3].parts):
+            function_values(x, y, out)
+
+
 # ------------------------------------------------------------------------------------ structural checks
-def check_export(ctx, h, case, stratum, reads):
+def check_export(ctx, h, case, stratum, reads, body_region=None):
     import hugr.model as model
     from hugr import InPort, Node, OutPort, ops
     from vf.oracles import wire
@@ -227,11 +371,12 @@ def check_export(ctx, h, case, stratum, reads):
     def bad(kind, locus, exp, obs, key=None):
         ctx.disc(key, kind, locus, exp, obs, stratum=stratum, case=case)
 
-    m = h.to_model()
-    sh = Shadow(reads, lambda k, loc, e, o: bad(f"shadow[{k}]", loc, e, o))
-    ma = sh.attrs(m)
-    sh.region(ma.get("root"), "root")
-    ctx.count("monitor:shadow-read", sh.n)
+    if body_region is None:
+        m = h.to_model()
+        sh = Shadow(reads, lambda k, loc, e, o: bad(f"shadow[{k}]", loc, e, o))
+        ma = sh.attrs(m)
+        sh.region(ma.get("root"), "root")
+        ctx.count("monitor:shadow-read", sh.n)
 
     ports_of = {}
 
@@ -330,10 +475,27 @@ def check_export(ctx, h, case, stratum, reads):
             t = mop.operation if isinstance(mop, model.CustomOp) else None
             srcs = list(h.linked_ports(InPort(n, 0)))
             if len(srcs) == 1 and isinstance(h[srcs[0].node].op, ops.Const):
-                want = h[srcs[0].node].op.val.to_model()
-                if not isinstance(t, model.Apply) or t.symbol != "core.load_const" or len(t.args) != 2 \
-                        or t.args[1] != want:
-                    bad("M-CONST", n.idx, repr(want)[:150], repr(t)[:150])
+                # expected term computed from the *serialized* constant (hugr-core export_value), not
+                # from the exporter's own Value.to_model
+                vj = enc_op(h[srcs[0].node].op)["v"]
+                want = vterm(vj)
+                got = neutral(t.args[1]) if isinstance(t, model.Apply) and len(t.args) == 2 else None
+                if not isinstance(t, model.Apply) or t.symbol != "core.load_const" or got is None \
+                        or not term_matches(want, got):
+                    bad("M-CONST", n.idx, json.dumps(want)[:300], json.dumps(got, default=repr)[:300])
+                else:
+                    if len(list(h.linked_ports(OutPort(srcs[0].node, 0)))) > 1:
+                        ctx.feat("feature:const-loaded-again")
+                    fvs = []
+                    function_values(vj, t.args[1], fvs)
+                    for body_doc, ft in fvs:
+                        # the body of a function constant is a region of its own: same structural rules
+                        from hugr import Hugr
+
+                        ctx.count("monitor:M-FUNC-BODY")
+                        ctx.feat("feature:function-constant")
+                        hb = Hugr.load_json(json.dumps(body_doc))
+                        check_export(ctx, hb, case, stratum, reads, body_region=ft.region)
         # ---- regions
         ch = h.children(n)
         if isinstance(op, ops.Conditional):
@@ -399,10 +561,13 @@ def check_export(ctx, h, case, stratum, reads):
             listed.append((InPort(exit_, 0), name, "cons"))
         walk_children(parent, region, (ops.ExitBlock, ops.Const), where)
 
-    root_region = m.root
-    if root_region.kind != model.RegionKind.MODULE:
-        bad("M-HIER", "root", "MODULE", repr(root_region.kind))
-    walk_children(h.root, root_region, (ops.Const,), "")
+    if body_region is not None:
+        walk_dfg(h.root, body_region, "fn")
+    else:
+        root_region = m.root
+        if root_region.kind != model.RegionKind.MODULE:
+            bad("M-HIER", "root", "MODULE", repr(root_region.kind))
+        walk_children(h.root, root_region, (ops.Const,), "")
 
     # ---- M-LINK: same name <=> joined by an edge; hyperedge rule
     ctx.count("monitor:M-LINK")
